@@ -23,6 +23,8 @@ AUDITED = [
      "byte i/2 with i <= mask is inside the row: sizing obligation R13.5 (mask/2 < width), decided by check_sketch_sizing"),
     (r"^<sketch::CountMinRow as std::ops::Index(Mut)?<usize>>::index(_mut)?$", "index", r"^self\.0 \[index\]$",
      "forwarding impl; callers are CountMinRow::get / increment (see R13.5)"),
+    (r"^bbloom::Bloom::(set|is_set)$", "index", r"^self\.bitset \[",
+     "word idx/64 with idx <= the position mask is inside the bit array: sizing obligation R14.5 (highest word addressed by set / is_set at idx = mask < words allocated, for every size), decided by check_bloom_sizing; callers mask every position with self.size (R14.1)"),
     (r"^histogram::Histogram::update$", "index", r"^self\.count_per_bucket \[",
      "count_per_bucket has bounds.len() + 1 slots (Histogram::new) and idx ranges over 0..=bounds.len()"),
     (r"^histogram::Histogram::percentile$", "index", r"^self\.bounds \[",
